@@ -193,6 +193,9 @@ func (b *block) len() int {
 func (b *block) setBase(n int64) {
 	b.base = n
 	b.offset = Offset{File: n}
+	// The data of a recycled block belongs to its previous base
+	// until readFrom succeeds.
+	b.buf = nil
 }
 
 func (b *block) NextBase() int64 {
